@@ -75,10 +75,6 @@ let eval inp obs =
     | ["E"; _] :: t -> ro_swallowed true t   (* any skiperrors above: some refusal may be swallowed *)
     | _ :: t -> ro_swallowed above t in
   let ro = ro_swallowed false lay in
-  let plain_batched =
-    List.for_all (fun l -> match l with ["B"] | ["S"; _] | ["N"] | ["C"] | ["M"] -> true | _ -> false) lay
-    && List.exists (fun l -> l = ["M"]) lay
-    && List.for_all (fun o -> match o with ("BW" | "DR" | "LW" | "LR" | "RO") :: _ -> false | _ -> true) ops in
   let top_nokey = (match lay with ["N"] :: _ -> true | _ -> false) in
   (* ---- the theorems' domain: batched / skipkeys / nokeyiserr / cached / readonly layers over the memorydb
      double, used from the top, no batch writes, no layer Write/Reset, no Drop, no re-open.  There every
@@ -89,6 +85,10 @@ let eval inp obs =
     List.for_all (fun l -> match l with ["B"] | ["S"; _] | ["N"] | ["C"] | ["R"] | ["M"] -> true | _ -> false) lay
     && List.exists (fun l -> l = ["M"]) lay
     && List.for_all (fun o -> match o with ("BW" | "DR" | "LW" | "LR" | "RO") :: _ -> false | _ -> true) ops in
+  (* the rule "after a successful Close the base holds the ordered map of all accepted writes" has the SAME
+     domain (one predicate, so the two cannot drift apart): a layer Reset/Write, a batch write, a Drop or a
+     second handle of the cached producer legitimately change what Close leaves in the base *)
+  let plain_batched = in_domain in
   let rec index_of p i = function [] -> -1 | x :: t -> if p x then i else index_of p (i + 1) t in
   let top_b = index_of (fun l -> l = ["B"]) 0 lay in
   let buffered = top_b >= 0 && ro = None in
